@@ -10,7 +10,7 @@ STD = ["strip_head", "name_return", "stub_gen",
        ("expand_macro", "fixnum", F_AST, "R5"),
        ("macro_fn", "arena_alloc", "arena_alloc", "R5"),
        ("macro_fn", "try_numeric_result", "try_numeric_result", "R4"),
-       "map_unwrap", "ref_ops"]
+       "map_unwrap", "ref_ops", "ref_patterns"]
 
 def fn(name, file=F_OPS, extra=(), **kw):
     d = {"fn": name, "file": file, "rewrites": STD + list(extra)}
@@ -20,7 +20,7 @@ def fn(name, file=F_OPS, extra=(), **kw):
 UNIT = {
     "name": "arith",
     "prelude": ["../common/number.rs", gen_ops.gen, "../common/floatk.rs", "../common/stdspecs.rs", "prelude.rs"],
-    "specs": ["arith.spec"],
+    "specs": ["../common/divmod.spec", "arith.spec"],
     "explicit_use": ["Integer"],
     "broadcast_use": ["ax_number::axiom_fixnum_range", "ax_number::axiom_ubig_nonneg", "ax_float::axiom_f_add_comm",
                       "ax_float::axiom_f_mul_comm", "ax_float::axiom_f_of_i64_finite",
@@ -34,5 +34,24 @@ UNIT = {
         fn("abs"),
         fn("sub"),
         fn("mul"),
+        {"fn": "arena_from", "impl": r"impl ArenaFrom < i64 > for Number", "file": F_FORMS, "emit_name": "arena_from_i64",
+         "rewrites": STD, "wrap_pre": "impl ArenaFrom<i64> for Number {\n", "wrap_post": "}\n"},
+        {"fn": "arena_from", "impl": r"impl ArenaFrom < isize > for Number", "file": F_FORMS, "emit_name": "arena_from_isize",
+         "rewrites": STD, "wrap_pre": "impl ArenaFrom<isize> for Number {\n", "wrap_post": "}\n"},
+        {"fn": "is_zero", "impl": r"impl Number", "file": F_FORMS, "emit_name": "Number_is_zero", "rewrites": STD + [("replace", "f == 0.0 || f == -0.0", "f64_is_zero(f)", "R10")],
+         "wrap_pre": "impl Number {\n", "wrap_post": "}\n"},
+        {"fn": "is_negative", "impl": r"impl Number", "file": F_FORMS, "emit_name": "Number_is_negative", "rewrites": STD + [("replace", "f.is_sign_negative() && f != -0f64", "f64_is_negative(f)", "R10")],
+         "wrap_pre": "impl Number {\n", "wrap_post": "}\n"},
+        {"fn": "is_positive", "impl": r"impl Number", "file": F_FORMS, "emit_name": "Number_is_positive", "rewrites": STD,
+         "wrap_pre": "impl Number {\n", "wrap_post": "}\n"},
+        {"fn": "is_integer", "impl": r"impl Number", "file": F_FORMS, "emit_name": "Number_is_integer", "rewrites": STD,
+         "wrap_pre": "impl Number {\n", "wrap_post": "}\n"},
+        fn("idiv"),
+        fn("remainder"),
+        fn("ibig_rem_floor", parent_fn="modulus"),
+        fn("modulus", extra=[("hoist_out", "ibig_rem_floor")]),
+        fn("int_floor_div"),
+        fn("bitwise_complement"),
+        fn("and"), fn("or"), fn("xor"),
     ],
 }
